@@ -7,10 +7,14 @@ ROOT = os.path.dirname(os.path.dirname(os.path.abspath(__file__)))
 PROPS = {}
 for _p in sorted(glob.glob(os.path.join(ROOT, "props", "C*.json"))):
     PROPS[os.path.basename(_p)[:-5]] = json.load(open(_p))
+# ad-hoc experiments: VERIF_PROPS_EXTRA=<file.json> is loaded as property "X<name>" (never registered)
+if os.environ.get("VERIF_PROPS_EXTRA"):
+    _x = os.environ["VERIF_PROPS_EXTRA"]
+    PROPS["X" + os.path.basename(_x)[:-5]] = json.load(open(_x))
 # properties whose check is still under construction (not registered in MANIFEST.json yet)
 _WIP = os.path.join(ROOT, "props", "wip.json")
 WIP = set(json.load(open(_WIP))) if os.path.exists(_WIP) else set()
-CLAIMED = {k: v for k, v in PROPS.items() if k not in WIP}
+CLAIMED = {k: v for k, v in PROPS.items() if k not in WIP and not k.startswith("X")}
 ALL = ["C%02d" % i for i in range(1, 21)]
 _NA = os.path.join(ROOT, "props", "not_claimed.json")
 _reasons = json.load(open(_NA)) if os.path.exists(_NA) else {}
